@@ -43,7 +43,8 @@ def run(tier, seed, replay=None):
     cs = [(80, 2, 3, 16, "$ mat(;,;,11,,) $\n"), (80, 2, 12, 12, "/ a: // c\n\n  \n    b\n"),
           (80, 2, 12, 14, "1. @b[b]$1$\n  \\*\n"), (80, 2, 1, 4, "#(2)w"), (80, 2, 2, 5, "$#(2)w$"),
           (80, 2, 30, 50, "/ 4:\n  // 4\n    / 44: // 44\n          444\n\n    / 5: x\n"),
-          (80, 2, 8, 21, "$ sqrt(#text(red)[1], y) $\n"), (20, 4, 3, 12, "$ #f(1, 2)[x] + #[a *b*] $\n")] + cs
+          (80, 2, 8, 21, "$ sqrt(#text(red)[1], y) $\n"), (20, 4, 3, 12, "$ #f(1, 2)[x] + #[a *b*] $\n"),
+          (0, 1, 5, 5, "* /**/#text(fill: red)[5]\naaa\n*\n"), (80, 2, 4, 8, "#[ a *b* ]\n"), (80, 2, 3, 6, "= H /*c*/ x\n")] + cs
     if replay and isinstance(replay.get("input"), dict) and "source" in replay["input"]:
         i = replay["input"]
         cs.insert(0, (i.get("width", 80), i.get("tab", 2), i["start"], i["end"], i["source"]))
